@@ -70,9 +70,10 @@ pub fn strategy() -> BoxedStrategy<C17Case> {
         .boxed()
 }
 
-const HN: &[&str] = &["h", "k"];
-const GN: &[&str] = &["g", "q"];
-const CN: &[&str] = &["c", "d"];
+// (dotted names: start-up replays must take the name apart at the right dot)
+const HN: &[&str] = &["h", "k.x.y"];
+const GN: &[&str] = &["g", "q.r"];
+const CN: &[&str] = &["c", "d.e"];
 
 fn h_script(name: &str, version: usize, valid: bool) -> String {
     if !valid {
